@@ -7,6 +7,7 @@ mod observe;
 mod project;
 mod reads;
 mod roundtrip;
+mod webanno;
 
 use apply::*;
 use concretise::IdStyle;
